@@ -44,7 +44,7 @@ PushOK ==
   k >= 1 =>
     /\ (Handles(X.hb_push[k]) # pred[k]) => Say("hb_push", k, pred[k], Handles(X.hb_push[k]))
     /\ (Handles(X.racing_push[k]) # RacesP(k) \/ ~NoDup(X.racing_push[k]))
-          => Say("racing_push", k, RacesP(k), X.racing_push[k])
+          => Say("racing_push", k, RacesP(k), [i \in 1..Len(X.racing_push[k]) |-> X.racing_push[k][i] + 1])
 
 \* on the complete execution
 FinalOK ==
@@ -59,7 +59,7 @@ FinalOK ==
         \* rel = hb is checked just above, so RacesP(e) (rows) is Races(X, hb, e) (documented definition on the closure)
         /\ \A e \in Ev(X) :
              (Handles(X.racing[e]) # RacesP(e) \/ ~NoDup(X.racing[e]))
-                => Say("racing", e, RacesP(e), X.racing[e])
+                => Say("racing", e, RacesP(e), [i \in 1..Len(X.racing[e]) |-> X.racing[e][i] + 1])
         /\ (X.n <= 12) => \A e \in Ev(X) : RacesP(e) = Races(X, hb, e) \/ Say("spec_races_rows_vs_closure", e, {}, {})
 
 Report == PushOK /\ FinalOK
